@@ -271,7 +271,7 @@ def run_harness(prop, seed, n, outdir, extra=None):
     cases = []
     p = os.path.join(outdir, "cases.tsv")
     if os.path.exists(p):
-        for i, line in enumerate(open(p)):
+        for i, line in enumerate(open(p, encoding="utf-8", errors="replace")):
             f = line.rstrip("\n").split("\t")
             if len(f) < 6:
                 continue
